@@ -51,26 +51,24 @@ InTime(id) == id \in DOMAIN sent => now - sent[id][1] + 1 >= MinDelay(sent[id][2
 TArrive == IsEvent("Arrive") /\ Run0 /\ Ev.t = now /\ Ev.whole /\ Arrive(Ev.id) /\ InTime(Ev.id) /\ Forget(Ev.id)
 TLost == IsEvent("Lost") /\ Run0 /\ Ev.finite /\ TailDrop(Ev.id) /\ Forget(Ev.id)
 TStartRecv == IsEvent("StartRecv") /\ Run /\ StartRecv(Ev.s, Ev.style, Ev.cap)
-TReady == IsEvent("Ready") /\ Run /\ ~Ev.inline /\ (IF us[Ev.s].open THEN Ready(Ev.s) ELSE ReadyLate(Ev.s))
-TRecv == /\ IsEvent("Recv") /\ Run /\ Ev.t = now /\ ~Ev.inline /\ Ev.intact /\ us[Ev.s].open
-         /\ us[Ev.s].rcvq # <<>>
-         /\ LET id == Head(us[Ev.s].rcvq) IN
-            /\ IF Ev.id = -1 THEN Ev.n = 1 /\ Ev.b0 = id % 256 ELSE Ev.id = id
-            /\ HasOp(Ev.s)
-            /\ IF Len(Ev.from) = 0 THEN ((us[Ev.s].op # None /\ us[Ev.s].op.style = "recv")
-                                         \/ \E i \in OldRecvs(Ev.s) : us[Ev.s].aborting[i].style = "recv")
-               ELSE <<Ev.from[1], Ev.from[2]>> = dg[id].from
-            /\ Recv(Ev.s, id, Ev.n, dg[id].from)
-TRecvLate == /\ IsEvent("Recv") /\ Run /\ Ev.t = now /\ ~Ev.inline /\ Ev.intact /\ ~us[Ev.s].open
-             /\ Ev.id >= 0 /\ us[Ev.s].grave # <<>>
-             /\ RecvLate(Ev.s, Ev.id, Ev.n, IF Len(Ev.from) = 2 THEN <<Ev.from[1], Ev.from[2]>>
-                                                                   ELSE Head(us[Ev.s].grave).from)
+TReady == IsEvent("Ready") /\ Run /\ ~Ev.inline /\ Ready(Ev.s)
+\* a receive handler runs with data (also after the socket was closed or the operation superseded: it reports what
+\* its operation took while it was outstanding)
+TRecv == /\ IsEvent("Recv") /\ Run /\ Ev.t = now /\ ~Ev.inline /\ Ev.intact
+         /\ IF Ev.id = -1
+            THEN Ev.n = 1 /\ RecvByte(Ev.s, Ev.b0, IF Len(Ev.from) = 2 THEN <<Ev.from[1], Ev.from[2]>> ELSE None)
+            ELSE /\ Took(Ev.s, Ev.id) # {}
+                 /\ (Len(Ev.from) = 0 => StyleOf(Ev.s, Ev.id) = "recv")
+                 /\ Recv(Ev.s, Ev.id, Ev.n, IF Len(Ev.from) = 2 THEN <<Ev.from[1], Ev.from[2]>>
+                                                                  ELSE Ops(Ev.s)[First(Took(Ev.s, Ev.id))].tk.from)
+\* a non-blocking read (after a readiness notification) finds nothing: only if nothing was queued when it was made
+TRecvErr == IsEvent("RecvErr") /\ Run /\ ~Ev.inline /\ Ev.ec = "would_block" /\ WouldBlock(Ev.s)
 TRecvAborted == /\ IsEvent("RecvAborted") /\ Run /\ ~Ev.inline /\ AbortRecv(Ev.s)
 TEnd == /\ IsEvent("End") /\ phase = "run" /\ phase' = "idle" /\ Quiescent /\ UNCHANGED <<uvars, rt, sent>>
 TThrow == IsEvent("Throw") /\ Run /\ UNCHANGED uvars
 TEndThrown == IsEvent("EndThrown") /\ phase = "run" /\ phase' = "idle" /\ UNCHANGED <<uvars, rt, sent>>
 TWireU == IsEvent("WireU") /\ Run /\ UNCHANGED uvars
-TNext == TMove \/ TWireU \/ TSupersede \/ TStartWaitW \/ TWritable \/ TWaitWAborted \/ TRecvLate \/ TThrow \/ TEndThrown \/ TCfg \/ TAdv \/ TBind \/ TClose \/ TOpen \/ TCancel \/ TSndBuf \/ TDf \/ TSend \/ TArrive \/ TLost
+TNext == TMove \/ TWireU \/ TSupersede \/ TStartWaitW \/ TWritable \/ TWaitWAborted \/ TRecvErr \/ TThrow \/ TEndThrown \/ TCfg \/ TAdv \/ TBind \/ TClose \/ TOpen \/ TCancel \/ TSndBuf \/ TDf \/ TSend \/ TArrive \/ TLost
          \/ TStartRecv \/ TReady \/ TRecv \/ TRecvAborted \/ TEnd
 TSpec == TInit /\ [][TNext]_tvars
 
